@@ -10,7 +10,8 @@ from vf.checks import c13, c18
 PID = "C19"
 LEVEL = "exploration"
 RULE = ("differential over the five model classes as five programs: (a) predict_win / predict_draw / predict_rank on every game of the "
-        "prediction space G under K0 and G2+G3 under K1,K9,K10 must agree (1e-12; ranks exactly); (b) the whole C13 fault grammar "
+        "prediction space G under K0 and G2+G3 under K1,K9,K10 must agree (1e-12; ranks exactly), both on fresh objects and on one model + one set of rating objects per class that is "
+        "re-used for the whole shard with values assigned in place; (b) the whole C13 fault grammar "
         "(every op x shape x position x fault, accept side included): same accept/reject decision and same exception class; (c) "
         "the C18 alphabet: all pairs x 6 operators, hash / copy / deepcopy behaviour vectors, foreign operands; (d) "
         "inspect.signature of every public callable of model and rating classes; (e) BT-part vs BT-full on every 2-team game of "
@@ -19,12 +20,27 @@ RULE = ("differential over the five model classes as five programs: (a) predict_
 ASSUMPTIONS = ["'identical' = 1e-12 on numbers, exact on classes / booleans / signatures", "repr/str texts (which name the class) are not compared"]
 
 
-def eval_pred(cfg, g):
+def eval_pred(cfg, g, persist=None):
+    """persist: {kind: {shape: (model, rating objects)}} - when given, each class keeps ONE model and ONE set of rating objects
+    per team shape for the whole unit and the game's values are assigned to them in place (what rate() does), so the five
+    programs are also compared on a common history of earlier predictions with the same objects."""
     res = {}
+    shape = tuple(len(T) for T in g)
     for kind in spaces.KINDS:
         try:
             with core.watchdog():
-                w, d, r = pred.predict_all(cfg.make(kind), g)
+                if persist is None:
+                    w, d, r = pred.predict_all(cfg.make(kind), g)
+                else:
+                    slot = persist.setdefault(kind, {})
+                    if shape not in slot:
+                        mdl = cfg.make(kind)
+                        slot[shape] = (mdl, lib.ratings(mdl, g))
+                    mdl, objs = slot[shape]
+                    for T, vals in zip(objs, g):
+                        for p, (mu, sg) in zip(T, vals):
+                            p.mu, p.sigma = mu, sg
+                    w, d, r = mdl.predict_win(objs), mdl.predict_draw(objs), mdl.predict_rank(objs)
             res[kind] = (list(w) + [d] + [p for _, p in r], [k for k, _ in r])
         except Exception as e:
             res[kind] = ("exc", type(e).__name__)
@@ -119,8 +135,8 @@ def sig_vector(kind):
             else:
                 out[f"{label}.{n}"] = [kindof]
     out["module.__all__"] = [n.replace(cname, "<Model>") for n in getattr(mod, "__all__", [])]
-    out["instance attrs"] = sorted(vars(cls()))
-    out["instance attrs"] = [a.replace(cname, "<Model>") for a in out["instance attrs"]]
+    # public instance attributes only: a private helper attribute in one class is not an operation
+    out["instance attrs"] = [a.replace(cname, "<Model>") for a in sorted(vars(cls())) if not a.startswith("_")]
     return out
 
 
@@ -173,11 +189,15 @@ def run_unit(unit, ctx):
     if what == "pred":
         _, sp, K, k, parts = unit
         cfg = spaces.config(K)
+        persist = {}
         for g in spaces.sharded(spaces.pred_games(sp, cfg), k, parts):
-            acc.evals += 5
-            acc.nontrivial += 1
+            acc.evals += 10
+            acc.nontrivial += 2
             for kind, m in eval_pred(cfg, g):
                 acc.violation(PID, f"pred:{kind}:n{min(len(g), 3)}", m, {"what": "pred", "cfg": K, "game": core.game_hex(g)})
+            for kind, m in eval_pred(cfg, g, persist):
+                acc.violation(PID, f"pred-history:{kind}:n{min(len(g), 3)}", m + " [one model and one set of rating objects per class, values assigned in place after earlier predictions]",
+                              {"what": "pred", "cfg": K, "game": core.game_hex(g)})
         acc.sample({"what": "pred", "cfg": K, "game": g})
     elif what == "grammar":
         op = unit[1]
